@@ -184,6 +184,7 @@ RULES = [
     ("C06-R2", "early exits on limit apply to unbuffered output only (sibling agreement)", r2),
     ("C06-R3", "row counter: single writer, after the filter, step 1", r3),
     ("C06-R4", "buffer selection, implicit limit, parse_limit", r4),
+    ("X-BUFFER", "buffering predicates (ordered or aggregate) and recursive expression predicates [shared]", lambda ctx: __import__("extra").buffering_predicates(ctx)),
 ]
 
 EXPLANATION = (
@@ -193,7 +194,8 @@ EXPLANATION = (
     "limit; every early exit comparing the limit with the number of found rows is conjoined with !is_buffered() "
     "(directory loop and archive loop agree); Searcher.found has exactly one writer, after the WHERE filter, step 1; "
     "limit 0 selects the unlimited buffer, and the implicit limit 1 is applied only when no selected expression "
-    "needs a file. Row counts on real trees and tie resolution are not decided.")
+    "needs a file. Row counts on real trees and tie resolution are not decided."
+    ' is_buffered is exactly has_ordering || has_aggregate_column and the recursive expression predicates visit every child.')
 ASSUMPTIONS = ["rustc's HIR/MIR faithfully represent the source; exporter and rule scripts are correct",
                "BTreeMap::iter().next_back() yields the greatest key"]
 NOT_DECIDED = ["row counts on real trees", "which of several tied rows is kept at the cut"]
